@@ -10,7 +10,93 @@ def parseReduce (s : String) : Option Reduce :=
 def parseOptRats (s : String) : Option (Option (List Rat)) :=
   if s = "none" then some none else (parseRats s).map some
 
+/-- `quantiles` | `uniform` | `given:<rats>` -/
+def parseSpec (s : String) : Option KpSpec :=
+  if s.startsWith "given:" then (parseRats (s.drop 6).toString).map KpSpec.given else (parseMode s).map KpSpec.mode
+
+def showSpec : KpSpec → String
+  | .mode .quantiles => "quantiles"
+  | .mode .uniform => "uniform"
+  | .given kps => "given:" ++ showRats kps
+
+/-- 7 tokens per config: name numBuckets spec numKeypoints clipMin clipMax default -/
+def parseCfgs : Nat → List String → Option (List FeatureCfg × List String)
+  | 0, rest => some ([], rest)
+  | n + 1, name :: nb :: spec :: k :: cmin :: cmax :: dflt :: rest => do
+    let name ← name.toNat?; let nb ← nb.toNat?; let spec ← parseSpec spec; let k ← k.toNat?
+    let cmin ← parseOptRat cmin; let cmax ← parseOptRat cmax; let dflt ← parseOptRat dflt
+    let (cs, rest) ← parseCfgs n rest
+    pure ({ name := name, numBuckets := nb, spec := spec, numKeypoints := k, clipMin := cmin, clipMax := cmax,
+            dflt := dflt } :: cs, rest)
+  | _, _ => none
+
+/-- 3 tokens per feature: name values tieDirs -/
+def parseFeatures : Nat → List String → Option (List (Nat × List Rat) × List (List Int))
+  | 0, [] => some ([], [])
+  | n + 1, name :: vals :: dirs :: rest => do
+    let name ← name.toNat?; let vals ← parseRats vals; let dirs ← parseInts dirs
+    let (fs, ds) ← parseFeatures n rest
+    pure ((name, vals) :: fs, dirs :: ds)
+  | _, _ => none
+
+/-- tie positions and plateau flag of the `compute_keypoints` call a feature leads to -/
+def featureDiag (cfg : FeatureCfg) (vals : List Rat) (ws : Option (List Rat)) (red : Reduce) : List Nat × Bool :=
+  if cfg.numBuckets ≠ 0 then ([], false)
+  else match cfg.spec with
+    | .mode .quantiles =>
+      (tiePositions vals cfg.numKeypoints cfg.clipMin cfg.clipMax cfg.dflt ws red,
+       match ws with
+       | some w => plateauHit vals cfg.numKeypoints cfg.clipMin cfg.clipMax cfg.dflt w red
+       | none => false)
+    | _ => ([], false)
+
 def handlers : List (String × Handler) := [
+  -- kp.features weights reduction addMissing nCfg nFeat <7 tokens per config> <3 tokens per feature>
+  --   → `ERR e` | `ok` then per feature `skip`/keypoints, then per feature tie positions (`;`-joined),
+  --     plateau flags, and the configs after `set_feature_keypoints` as `name=spec` joined by `;`
+  ("kp.features", fun args => match args with
+    | ws :: red :: add :: ncfg :: nfeat :: rest => do
+      let ws ← parseOptRats ws; let red ← parseReduce red; let add ← parseBool add
+      let ncfg ← ncfg.toNat?; let nfeat ← nfeat.toNat?
+      let (cfgs, rest) ← parseCfgs ncfg rest
+      let (feats, dirs) ← parseFeatures nfeat rest
+      match computeFeatureKeypoints cfgs ws red feats dirs with
+      | .error e => pure (showErr e)
+      | .ok out =>
+        let per := feats.map fun f => match out.lookup f.1 with
+          | some kps => showRats kps
+          | none => "skip"
+        let diag := feats.map fun f => featureDiag (featureConfigByName cfgs f.1) f.2 ws red
+        let stored := (setFeatureKeypoints cfgs out add).map fun c => s!"{c.name}={showSpec c.spec}"
+        pure s!"ok {" ".intercalate per} {showNats2 (diag.map (·.1))} {showNats ((diag.map (·.2)).map fun b => if b then 1 else 0)} {if stored.isEmpty then "_" else ";".intercalate stored}"
+    | _ => none),
+  -- kp.label num|cls labels spec k outMin outMax logits weights reduction tieDirs
+  --   → keypoints | ERR …, tie positions, plateau flag, the stored `output_initialization`
+  ("kp.label", fun args => match args with
+    | [kind, labels, spec, k, omin, omax, logits, ws, red, dirs] => do
+      let labels ← if kind = "num" then (parseRats labels).map Labels.numeric
+        else if kind = "cls" then (parseNats labels).map Labels.classes else none
+      let spec ← parseSpec spec; let k ← k.toNat?
+      let omin ← parseOptRat omin; let omax ← parseOptRat omax; let logits ← parseBool logits
+      let ws ← parseOptRats ws; let red ← parseReduce red; let dirs ← parseInts dirs
+      let cfg : LabelCfg := { spec := spec, numKeypoints := k, outMin := omin, outMax := omax }
+      let res := computeLabelKeypoints cfg labels logits ws red dirs
+      let (vals, ws') := match labels with
+        | .numeric l => (l, ws)
+        | .classes l => (arange (numClasses l), none)
+      let quant := spec == .mode .quantiles && !logits
+      let ties := if quant then tiePositions vals k omin omax none ws' red else []
+      let plateau := match quant, ws' with
+        | true, some w => plateauHit vals k omin omax none w red
+        | _, _ => false
+      let head := match res with
+        | .ok l => showRats l
+        | .error e => showErr e
+      let stored := match res with
+        | .ok l => showSpec (setLabelKeypoints cfg l).spec
+        | .error _ => "-"
+      pure s!"{head} {showNats ties} {showBool plateau} {stored}"
+    | _ => none),
   -- kp.compute values k mode clipMin clipMax default weights reduction tieDirs
   --   → keypoints | ERR …, then tie positions, then plateau flag
   ("kp.compute", fun args => match args with
